@@ -177,19 +177,23 @@ package whispertool
 //@ func validateAggregationMethod
 //@   props C07
 //@   ensures iff: result == nil <==> (1 <= aggMethod && aggMethod <= 6)
+//@   ensures kind: result == nil || isother(result)
 
 //@ func validateXFilesFactor
 //@   props C07
 //@   ensures iff: result == nil <==> (0.0 <= xFilesFactor && xFilesFactor <= 1.0)
+//@   ensures kind: result == nil || isother(result)
 
 //@ func (ArchiveInfo).validate
 //@   props C07
 //@   ensures iff: result == nil <==> validArchive(a)
+//@   ensures kind: result == nil || isother(result)
 
 //@ func (ArchiveInfoList).validate
 //@   props C07
 //@   ensures sound: result == nil ==> wellFormed(aa)
 //@   ensures complete: wellFormed(aa) ==> result == nil
+//@   ensures kind: result == nil || isother(result)
 //@ loop (ArchiveInfoList).validate#0
 //@   invariant bounds: 0 <= i && i <= len(aa) && len(aa) > 0
 //@   invariant off: i == 0 ==> off == 16 + 12 * len(aa)
@@ -252,3 +256,33 @@ package whispertool
 //@                 && be32(dst, len(entry(dst)) + 20 + 12 * k) == h.archiveInfoList[k].secondsPerPoint fmod 4294967296
 //@                 && be32(dst, len(entry(dst)) + 24 + 12 * k) == h.archiveInfoList[k].numberOfPoints
 //@   invariant alias: dst.arr > old(top) || dst === entry(dst)[0:len(entry(dst)) + 16 + 12 * i]
+
+//@ spec metaOK(src []byte) bool = 1 <= be32(src, 0) && be32(src, 0) <= 6 && 0.0 <= f32frombits(be32(src, 8)) && f32frombits(be32(src, 8)) <= 1.0
+
+//@ func (*Header).TakeFrom
+//@   props C14 C15 C07
+//@   requires h != nil
+//@   modifies *h
+//@   allocates <= len(src)
+//@   ensures short_meta: len(src) < 16 ==> iswl(result1) && wlsize(result1) == 16
+//@   ensures short_list: len(src) >= 16 && metaOK(src) && len(src) < 16 + 12 * be32(src, 12) ==> iswl(result1) && wlsize(result1) == 16 + 12 * be32(src, 12)
+//@   ensures wl_asks_more: iswl(result1) ==> wlsize(result1) > len(src)
+//@   ensures meta: len(src) >= 16 ==> h.aggregationMethod == be32(src, 0) && h.maxRetention fmod 4294967296 == be32(src, 4)
+//@                 && bits(h.xFilesFactor) == be32(src, 8) && h.archiveCount == be32(src, 12)
+//@   ensures decoded: len(src) >= 16 && len(src) >= 16 + 12 * be32(src, 12) && metaOK(src) ==> len(h.archiveInfoList) == be32(src, 12)
+//@                 && (forall k :: 0 <= k && k < be32(src, 12) ==> h.archiveInfoList[k].offset == be32(src, 16 + 12 * k)
+//@                     && h.archiveInfoList[k].secondsPerPoint fmod 4294967296 == be32(src, 20 + 12 * k)
+//@                     && h.archiveInfoList[k].numberOfPoints == be32(src, 24 + 12 * k))
+//@   ensures iff: len(src) >= 16 ==> (result1 == nil <==> metaOK(src) && len(src) >= 16 + 12 * be32(src, 12) && wellFormed(h.archiveInfoList))
+//@   ensures rest: result1 == nil ==> result0 === src[16 + 12 * be32(src, 12):]
+//@   ensures valid: result1 == nil ==> validHeader(*h)
+//@ loop (*Header).TakeFrom#0
+//@   invariant bounds: 0 <= i && i <= len(h.archiveInfoList)
+//@   invariant hdr: h.aggregationMethod == be32(entry(src), 0) && h.maxRetention fmod 4294967296 == be32(entry(src), 4)
+//@                 && bits(h.xFilesFactor) == be32(entry(src), 8) && h.archiveCount == be32(entry(src), 12)
+//@                 && len(h.archiveInfoList) == be32(entry(src), 12) && metaOK(entry(src))
+//@   invariant enough: len(entry(src)) >= 16 + 12 * len(h.archiveInfoList)
+//@   invariant progress: src === entry(src)[16 + 12 * i:]
+//@   invariant decoded: forall k :: 0 <= k && k < i ==> h.archiveInfoList[k].offset == be32(entry(src), 16 + 12 * k)
+//@                     && h.archiveInfoList[k].secondsPerPoint fmod 4294967296 == be32(entry(src), 20 + 12 * k)
+//@                     && h.archiveInfoList[k].numberOfPoints == be32(entry(src), 24 + 12 * k)
